@@ -57,7 +57,10 @@ func verbTable() []verbExp {
 				return []poly.Rat{px.Add(g.RX(v("x1"))), py.Add(g.RY(v("y1"))), px.Add(g.RX(v("x"))), py.Add(g.RY(v("y")))}
 			}},
 		{name: "AbsSmoothQuadTo", calls: []string{"QuadTo"}, smooth: "quad", smoothAt: 0, usesSmooth: "quad",
-			args: func(g geom, px, py, sx, sy poly.Rat) []poly.Rat { x, y := absPt(g, "x", "y"); return []poly.Rat{sx, sy, x, y} }},
+			args: func(g geom, px, py, sx, sy poly.Rat) []poly.Rat {
+				x, y := absPt(g, "x", "y")
+				return []poly.Rat{sx, sy, x, y}
+			}},
 		{name: "RelSmoothQuadTo", calls: []string{"QuadTo"}, smooth: "quad", smoothAt: 0, usesSmooth: "quad",
 			args: func(g geom, px, py, sx, sy poly.Rat) []poly.Rat {
 				return []poly.Rat{sx, sy, px.Add(g.RX(v("x"))), py.Add(g.RY(v("y")))}
